@@ -196,12 +196,15 @@ func loadStateAtHeight(db kaidb.Database, height uint64) *LatestBlockState {
 		panic(fmt.Errorf(`block meta not found at height %v`, height))
 	}
 	state.LastBlockHeight = blockMeta.Header.Height
-	state.LastBlockID = blockMeta.BlockID
 	state.LastBlockTime = blockMeta.Header.Time
 	state.LastBlockTotalTx = blockMeta.Header.NumTxs
-
-	appHash := rawdb.ReadAppHash(db, height)
-	state.AppHash = appHash
+	// The genesis state (MakeGenesisState) is saved with a zero LastBlockID and AppHash although a genesis
+	// block is stored at height 0; keep them zero so that a node restarted before the first block holds the
+	// same state as on its first start.
+	if height > 0 {
+		state.LastBlockID = blockMeta.BlockID
+		state.AppHash = rawdb.ReadAppHash(db, height)
+	}
 
 	lValsInfo := rawdb.ReadConsensusValidatorsInfo(db, common.BytesToHash(sp.LastValidatorsInfoHash))
 	if state.LastBlockHeight > 0 {
